@@ -906,6 +906,9 @@ class Evaluator:
                 for i in order:
                     out[i] = 1 + ranks[i]
             elif op == "shift":
+                if args[1][0] != "lit":
+                    # K07: `n` given as a (constant) column instead of a python value
+                    raise OutOfDomain("shift distance is not a literal")
                 n = dec(args[1][1])
                 fill = dec(args[2][1]) if len(args) > 2 else None
                 for k, i in enumerate(order):
